@@ -35,5 +35,10 @@ G_ClearWithPending  == ~(\E c \in Clients : pc[c] = "clr_stop" /\ buf # <<>> /\ 
 G_SameBucketRewrite == ~(lastUpd.old # 0 /\ lastUpd.new # 0 /\ lastUpd.old # lastUpd.new /\ Bucket(lastUpd.old) = Bucket(lastUpd.new)
                           /\ \E c \in Clients : pc[c] = "set_send")
 G_TTLDropped        == ~(lastUpd.old # 0 /\ lastUpd.new = 0 /\ \E c \in Clients : pc[c] = "set_send")
+G_SweepSkip         == ~(apc = "sweep_check" /\ \E x \in sweepQ : store[x[2]] # NULL /\ (store[x[2]].exp > sweepNow \/ store[x[2]].exp = 0))
+G_WaitBlockedInSend == ~(\E c \in Clients : pc[c] = "blocked" /\ creg[c].t = "wait")
+G_TwoClears         == ~(\E c, d \in Clients : c # d /\ pc[c] = "clr_stop" /\ pc[d] \in {"clr_stop", "clr_drain", "clr_policy", "clr_store", "clr_fin"})
+G_DelDuringVictims  == ~(apc = "victims" /\ \E c \in Clients : pc[c] = "del_send" /\ creg[c].h = Head(areg.victims))
+G_SetDuringSweepDel == ~(apc \in {"sweep_poldel", "sweep_storedel"} /\ \E c \in Clients : pc[c] = "set_send" /\ creg[c].h = areg.item.h)
 G_RaiseCost         == ~(raised /\ used > maxCost)
 =============================================================================
